@@ -750,6 +750,10 @@ func bdTuple(i int, rng *Rng, keys *bdKeys, nonces int, seed uint64, t *bdRec) {
 			obs := func(name string, d cashu.DLEQProof) {
 				t.h("encoding-malleability", fmt.Sprintf("%s/accepted=%v", name, nut12.VerifyBlindSignatureDLEQ(d, K, bdHexPt(B_), bdHexPt(C_))))
 			}
+			// NUT-12 makes the DLEQ optional: a proof whose DLEQ was stripped altogether passes VerifyProofsDLEQ (theorem proofsDleq_stripped)
+			pn := proof
+			pn.DLEQ = nil
+			t.h("dleq-optional", fmt.Sprintf("stripped-dleq/VerifyProofsDLEQ-accepted=%v", nut12.VerifyProofsDLEQ(cashu.Proofs{pn}, ksPub)))
 			obs("e-uppercase-hex", cashu.DLEQProof{E: strings.ToUpper(eh), S: sh})
 			obs("e-33-bytes-extra-suffix", cashu.DLEQProof{E: eh + "ff", S: sh})
 			obs("s-33-bytes-extra-suffix", cashu.DLEQProof{E: eh, S: sh + "00"})
